@@ -115,6 +115,13 @@ def check_property(pid, tier, seed, args, t0):
     missing = sorted(l for l in expected if l not in status)
 
     replay_cache = {}
+
+    def rkey(func, label):
+        # one replay per function, except where a template orders its cases by the obligation
+        for hint in ('restore_all', 'cache-file-written'):
+            if hint in label:
+                return (func, hint)
+        return func
     violations = []      # (label, representative obligation, reason)
     known_hits = []
     undecided = []
@@ -134,7 +141,7 @@ def check_property(pid, tier, seed, args, t0):
         else:
             # never discharged before and no counter-model: a violation only if the replay
             # template finds a failing input on the real code, otherwise undecided
-            key = rep['func']
+            key = rkey(rep['func'], l)
             if key not in replay_cache:
                 replay_cache[key] = CLI.run_replay(pid, l, rep, tier, seed)
             if replay_cache[key].get('reproduced'):
@@ -189,9 +196,9 @@ def check_property(pid, tier, seed, args, t0):
         if rep.get('bounded_failure') is not None:
             rp = {'reproduced': True, 'input': rep['bounded_failure']}
         else:
-            if rep['func'] not in replay_cache:
-                replay_cache[rep['func']] = CLI.run_replay(pid, l, rep, tier, seed)
-            rp = replay_cache[rep['func']]
+            if rkey(rep['func'], l) not in replay_cache:
+                replay_cache[rkey(rep['func'], l)] = CLI.run_replay(pid, l, rep, tier, seed)
+            rp = replay_cache[rkey(rep['func'], l)]
         doc = {'property': pid, 'obligation': l, 'obligation_instance': rep.get('name'),
                'reason': reason, 'verifier_output': {k: rep.get(k) for k in
                                                      ('status', 'backend', 'time', 'reason', 'goal',
